@@ -1,11 +1,14 @@
 import Driver.Common
 import Driver.TopicD
 import Driver.RouterD
+import Driver.CommitLogD
 
 def main (args : List String) : IO UInt32 := do
   match args with
   | ["topic"] => Driver.runHandler (Driver.TopicD.handler false)
   | ["topic", "--selftest-wrong"] => Driver.runHandler (Driver.TopicD.handler true)
+  | ["clog"] => Driver.runHandler (Driver.CommitLogD.handler false)
+  | ["clog", "--selftest-wrong"] => Driver.runHandler (Driver.CommitLogD.handler true)
   | ["router", prop] => Driver.runHandler (Driver.RouterD.handler prop false)
   | ["router", prop, "--selftest-wrong"] => Driver.runHandler (Driver.RouterD.handler prop true)
   | _ =>
